@@ -1,1 +1,853 @@
-"""placeholder"""
+"""Molfile reader rules: R-ZERO, R-KILL, R-PROV (heap interpreter), R-KWEXACT,
+R-COLS, R-CHGTABLE, R-SIBKEYS, R-SUPERSEDE, R-ORDERING."""
+from __future__ import annotations
+
+import ast
+import re
+from typing import Optional
+
+from ..cfg import cfg_of
+from ..concrete import Unsupported, ceval, run_straightline
+from ..heap import ZERO, HeapInterp, Obj, prov, string, taint
+from ..model import AnalysisError, FuncInfo, norm, short
+from ..report import Finding, RuleResult
+from . import rule
+from .common import assigned_names, closure, entry, kwarg, names_in, own_walk, params_of, single_def, sites, try_const
+from .spec import (V2000_ATOM, V2000_BOND, V2000_CHARGE_CODES, V2000_COUNTS, V2000_PROP, V3000_ATOM_KEYWORDS)
+
+SINKS = ("chg", "mass", "rad")
+KW_OF = {"chg": "CHG", "mass": "MASS", "rad": "RAD"}
+V2000_PROP_OF = {"chg": "M  CHG", "rad": "M  RAD", "mass": "M  ISO"}
+
+
+def reader_entries(ctx) -> dict[str, FuncInfo]:
+    """version string -> reader entry function, from the dispatcher's tests"""
+    if "reader_entries" in ctx.cache:
+        return ctx.cache["reader_entries"]
+    disp = entry(ctx, "read_text")
+    out: dict[str, FuncInfo] = {}
+
+    def scan(stmts):
+        for st in stmts:
+            if isinstance(st, ast.If):
+                t = st.test
+                ver = None
+                if isinstance(t, ast.Compare) and len(t.ops) == 1 and isinstance(t.ops[0], ast.Eq):
+                    for side in (t.left, t.comparators[0]):
+                        if isinstance(side, ast.Constant) and isinstance(side.value, str):
+                            ver = side.value
+                if ver is not None:
+                    for n in ast.walk(ast.Module(st.body, [])):
+                        if isinstance(n, ast.Call):
+                            cs = ctx.cg.resolve_call(disp, n, ctx.cg.local_types(disp), set(params_of(disp.node)))
+                            if cs.kind == "tucan":
+                                out[ver] = cs.target
+                scan(st.orelse)
+    scan(disp.node.body)
+    if "V3000" not in out or "V2000" not in out:
+        raise AnalysisError(f"molfile dispatcher no longer selects a V2000 and a V3000 reader (found {sorted(out)})")
+    ctx.cache["reader_entries"] = out
+    return out
+
+
+def analyse_reader(ctx, version: str):
+    key = ("reader_analysis", version)
+    if key not in ctx.cache:
+        fi = reader_entries(ctx)[version]
+        I = HeapInterp(ctx.repo, sink_keys=("chg", "mass", "rad", "element_symbol", "atomic_number"))
+        lines = Obj("list")
+        lines.elem = string()
+        out = I.call(fi, [lines])
+        if out.kind != "tuple" or len(out.items) != 2:
+            raise AnalysisError(f"{fi.qualname} no longer returns (atoms, bonds)")
+        atoms, bonds = out.items
+        rec = atoms.elem if atoms.kind == "map" else None
+        if rec is None or rec.kind != "rec":
+            raise AnalysisError(f"{fi.qualname}: cannot see the atom records in the returned value ({atoms.kind})")
+        ctx.cache[key] = (fi, I, rec, bonds)
+    return ctx.cache[key]
+
+
+def _uniq_events(events, kind, key=None):
+    seen, out = set(), []
+    for ev in events:
+        if ev.kind != kind or (key is not None and ev.key != key):
+            continue
+        k = (ev.fi.fq, norm(ev.node), ev.key, ev.flags)
+        if k not in seen:
+            seen.add(k)
+            out.append(ev)
+    return out
+
+
+# --------------------------------------------------------------------------- R-ZERO
+
+
+@rule("R-ZERO")
+def r_zero(ctx) -> RuleResult:
+    res = RuleResult("R-ZERO", "no possibly-zero number read from the file reaches the chg / mass / rad entry of an atom record returned by a reader (explicit defaults mean 'absent')")
+    for ver in ("V3000", "V2000"):
+        fi, I, rec, _ = analyse_reader(ctx, ver)
+        for k in SINKS:
+            fl = taint(rec.fields.get(k))
+            bad = ZERO in fl
+            res.inst(fi.fq, f"{ver} atom record entry `{k}`", "fail" if bad else "ok", detail=f"flags {sorted(fl)}")
+            if bad:
+                evs = [e for e in _uniq_events(I.events, "store", k) if ZERO in e.flags][:1]
+                done = set()
+                for ev in evs or [None]:
+                    node = ev.node if ev else fi.node
+                    efi = ev.fi if ev else fi
+                    kk = (efi.fq, norm(node))
+                    if kk in done:
+                        continue
+                    done.add(kk)
+                    kw = KW_OF[k] if ver == "V3000" else V2000_PROP_OF[k]
+                    res.fail(Finding("R-ZERO", efi.module.rel, efi.qualname, f"{k} <- {short(node, 90)}",
+                                     f"{ver}: an explicit default ({kw} value 0) is stored as `{k}: 0`; it must mean the same as omitting it "
+                                     f"(the serializer would write `{k}=0`, which the grammar rejects, and the invariant code differs from the omitted form)",
+                                     line=getattr(node, "lineno", None),
+                                     path=[f"int() of file text", f"{efi.qualname}", f"atom record[{k}]"]))
+        res.notes += [f"{ver}: {n}" for n in I.notes[:5]]
+        if I.unsummarised:
+            res.notes.append(f"{ver}: unsummarised calls treated as pure: {sorted(I.unsummarised)}")
+    res.counts = {"readers": 2, "sink_keys": len(SINKS)}
+    res.trusted = ["int()/float() of file text may return 0; constants of MOLFILE_V2000_CHARGES and detect_hydrogen_isotopes are evaluated"]
+    return res
+
+
+# --------------------------------------------------------------------------- R-KILL
+
+
+@rule("R-KILL")
+def r_kill(ctx) -> RuleResult:
+    res = RuleResult("R-KILL", "a reader never removes, from all atoms, an attribute whose atom-block producer is the element symbol (D/T masses survive property lines)")
+    n = 0
+    for ver in ("V3000", "V2000"):
+        fi, I, rec, _ = analyse_reader(ctx, ver)
+        sym_labels = set()
+        for ev in I.events:
+            if ev.kind == "store" and ev.key == "element_symbol":
+                sym_labels |= {x for x in ev.flags if x.startswith(("@col", "@idx"))}
+        # labels that every value carries (line splicing etc.) are not specific to the symbol
+        common = None
+        for ev in I.events:
+            if ev.kind == "store" and ev.key in SINKS + ("element_symbol",):
+                common = set(ev.flags) if common is None else common & set(ev.flags)
+        sym_labels -= (common or set())
+        kills = _uniq_events(I.events, "kill")
+        for ev in kills:
+            n += 1
+            from_symbol = bool(sym_labels & set(ev.flags))
+            bad = from_symbol and not ev.cond_per_item
+            res.inst(ev.fi.fq, f"{ver}: removes `{ev.key}` ({short(ev.node, 60)})", "fail" if bad else "ok",
+                     detail=f"entry provenance at that point {sorted(x for x in ev.flags if x != ZERO)}; per-atom condition: {ev.cond_per_item}")
+            if bad:
+                # name the call chain: the statement in the caller that triggers the removal with this key
+                res.fail(Finding("R-KILL", ev.fi.module.rel, ev.fi.qualname, f"remove `{ev.key}` from every atom: {short(ev.node, 70)}",
+                                 f"{ver}: `{ev.key}` derived from the element symbol (D / T) is removed from all atoms; "
+                                 "deuterium and tritium lose their mass when the file has such property lines",
+                                 line=getattr(ev.node, "lineno", None)))
+        if ver == "V2000" and not kills:
+            res.notes.append("V2000 reader removes no attribute (no supersession of atom-block values)")
+    res.counts = {"removal_sites": n}
+    return res
+
+
+# --------------------------------------------------------------------------- R-PROV
+
+
+def _labels(flags, prefix):
+    return {x[len(prefix):] for x in flags if x.startswith(prefix)}
+
+
+@rule("R-PROV")
+def r_prov(ctx) -> RuleResult:
+    res = RuleResult("R-PROV", "identity attributes (symbol, atomic number, mass, rad) and chg receive values only from their own fields: symbol column / type token, charge-code column, matching M  CHG/RAD/ISO entries or CHG=/MASS=/RAD= tokens")
+    # ---- V2000
+    fi, I, rec, bonds = analyse_reader(ctx, "V2000")
+    sym = f"{V2000_ATOM['symbol'][0]}:{V2000_ATOM['symbol'][1]}"
+    ccc = f"{V2000_ATOM['ccc'][0]}:{V2000_ATOM['ccc'][1]}"
+    allowed_atom = {"element_symbol": {sym}, "atomic_number": {sym}, "mass": {sym}, "chg": {ccc}, "rad": {ccc}}
+    for ev in _uniq_events(I.events, "store"):
+        sw = _labels(ev.flags, "@sw:")
+        cols = {c[1:-1] for c in _labels(ev.flags, "@col")}
+        if sw:
+            want = V2000_PROP_OF.get(ev.key)
+            ok = want is not None and sw == {want}
+            why = f"value from `{sorted(sw)}` lines stored under `{ev.key}`" + ("" if ok else f" (only {want!r} entries may set it)")
+        else:
+            ok = cols <= allowed_atom.get(ev.key, set())
+            why = f"atom-line columns {sorted(cols)} -> `{ev.key}`" + ("" if ok else f" (allowed: {sorted(allowed_atom.get(ev.key, set()))})")
+        res.inst(ev.fi.fq, f"V2000 {ev.key} <- {short(ev.node, 70)}", "ok" if ok else "fail", detail=why)
+        if not ok:
+            res.fail(Finding("R-PROV", ev.fi.module.rel, ev.fi.qualname, f"{ev.key} <- {short(ev.node, 90)}",
+                             f"V2000: {why}", line=getattr(ev.node, "lineno", None)))
+    # ---- V3000
+    fi, I, rec, bonds = analyse_reader(ctx, "V3000")
+    common = None
+    for ev in I.events:
+        if ev.kind == "store":
+            common = set(ev.flags) if common is None else common & set(ev.flags)
+    for ev in _uniq_events(I.events, "store"):
+        fl = set(ev.flags) - (common or set())
+        kws = _labels(fl, "@has:") | _labels(fl, "@sw:") | _labels(fl, "@eq:")
+        idx = {c[1:-1] for c in _labels(fl, "@idx")}
+        if ev.key in ("element_symbol", "atomic_number"):
+            ok = idx <= {"3"} and not kws
+            why = f"tokens {sorted(idx)} {sorted(kws)} -> `{ev.key}` (allowed: the type token, index 3)"
+        else:
+            want = KW_OF[ev.key]
+            ok = all(want in k for k in kws) and idx <= {"3"} and (bool(kws) or bool(idx))
+            if ev.key != "mass" and idx:
+                ok = False
+            why = f"tokens selected by {sorted(kws)} / positions {sorted(idx)} -> `{ev.key}` (allowed: {want}=… tokens" + ("; type token for D/T)" if ev.key == "mass" else ")")
+        res.inst(ev.fi.fq, f"V3000 {ev.key} <- {short(ev.node, 70)}", "ok" if ok else "fail", detail=why)
+        if not ok:
+            res.fail(Finding("R-PROV", ev.fi.module.rel, ev.fi.qualname, f"{ev.key} <- {short(ev.node, 90)}",
+                             f"V3000: {why}", line=getattr(ev.node, "lineno", None)))
+    if len(res.instances) < 8:
+        raise AnalysisError(f"R-PROV: only {len(res.instances)} stores into identity attributes seen; reader shape changed")
+    res.notes.append("membership tests against containers contribute the tested value's provenance only; header lines 1-3 have no reader (no subscript of the line list with index < 3)")
+    # header / comment lines are never read
+    for ver in ("V2000", "V3000"):
+        fi, I, rec, bonds = analyse_reader(ctx, ver)
+        allflags = set()
+        for v in list(rec.fields.values()):
+            allflags |= taint(v)
+        bad = {x for x in allflags if x in ("@idx[0]", "@idx[1]", "@idx[2]", "@row[0]", "@row[1]", "@row[2]")}
+        res.inst(fi.fq, f"{ver}: header and comment lines do not reach atom records", "ok" if not bad else "fail")
+        if bad:
+            res.fail(Finding("R-PROV", fi.module.rel, fi.qualname, f"{sorted(bad)}", f"{ver}: a header/comment line flows into atom attributes"))
+    return res
+
+
+# --------------------------------------------------------------------------- R-KWEXACT
+
+
+def _token_predicates(ctx, fi: FuncInfo):
+    """(owner node, loop variable, predicate expr) for filters over the tokens of an atom line"""
+    out = []
+    for n in own_walk(fi.node):
+        if isinstance(n, (ast.ListComp, ast.GeneratorExp, ast.SetComp, ast.DictComp)):
+            for g in n.generators:
+                if isinstance(g.target, ast.Name):
+                    for c in g.ifs:
+                        if g.target.id in names_in(c) and any(isinstance(x, ast.Constant) and isinstance(x.value, str) for x in ast.walk(c)):
+                            out.append((n, g.target.id, c))
+        if isinstance(n, ast.For) and isinstance(n.target, ast.Name):
+            for st in ast.walk(n):
+                if isinstance(st, ast.If) and n.target.id in names_in(st.test) and \
+                        any(isinstance(x, ast.Constant) and isinstance(x.value, str) for x in ast.walk(st.test)):
+                    out.append((st, n.target.id, st.test))
+    return out
+
+
+@rule("R-KWEXACT")
+def r_kwexact(ctx) -> RuleResult:
+    res = RuleResult("R-KWEXACT", "each optional-attribute recognizer of the V3000 atom decoder accepts exactly its own keyword among the CTfile atom keywords")
+    v3 = reader_entries(ctx)["V3000"]
+    fis = [ctx.cg.funcs[q] for q in ctx.cg.closure([v3.fq])]
+    atom_fis = [f for f in fis if "atom" in f.name and "attr" in f.name] or fis
+    preds = []
+    for f in atom_fis:
+        preds += [(f, *p) for p in _token_predicates(ctx, f)]
+    values = ["1", "-1", "0", "2", "13", "15", "(1 2)"]
+    spec_tokens = {kw: [f"{kw}={v}" for v in values] for kw in V3000_ATOM_KEYWORDS}
+    positional = ["1", "12", "C", "Cl", "H", "D", "0", "0.000000", "-1.250000", "M", "V30", "*", "Ra", "Hs", "Md"]
+    found = {}
+    for f, owner, var, pred in preds:
+        # bind other free names of the predicate from simple constant assignments in the function
+        env0 = {}
+        for nm in names_in(pred) - {var}:
+            v = try_const(ctx, f, ast.Name(nm, ast.Load()), default=None)
+            if v is not None:
+                env0[nm] = v
+
+        def accepts(tok: str) -> bool:
+            try:
+                return bool(ceval(pred, {**env0, var: tok}))
+            except Unsupported:
+                raise
+            except Exception:
+                return False     # the predicate raised on this token (e.g. no '='): not accepted
+        try:
+            own = [kw for kw in ("CHG", "MASS", "RAD") if all(accepts(t) for t in spec_tokens[kw][:2])]
+        except Unsupported as e:
+            raise AnalysisError(f"R-KWEXACT: predicate `{short(pred)}` in {f.qualname}: {e}")
+        if len(own) != 1:
+            # not an attribute recognizer (e.g. a blank filter)
+            if not own and not any(accepts(t) for kw in ("CHG", "MASS", "RAD") for t in spec_tokens[kw]):
+                continue
+            res.inst(f.fq, short(pred), "fail", detail=f"accepts keywords {own}")
+            res.fail(Finding("R-KWEXACT", f.module.rel, f.qualname, norm(pred), f"recognizer accepts the keywords {own or 'of several attributes partially'}: it cannot tell them apart", line=pred.lineno))
+            continue
+        kw = own[0]
+        found[kw] = found.get(kw, 0) + 1
+        wrong = [t for k2, toks in spec_tokens.items() if k2 != kw for t in toks if accepts(t)]
+        wrong += [t for t in positional if accepts(t)]
+        missed = [t for t in spec_tokens[kw] if t != f"{kw}=(1 2)" and not accepts(t)]
+        ok = not wrong and not missed
+        res.inst(f.fq, f"{kw}: `{short(pred)}`", "ok" if ok else "fail",
+                 detail=f"evaluated on {sum(len(v) for v in spec_tokens.values()) + len(positional)} tokens")
+        if wrong:
+            res.fail(Finding("R-KWEXACT", f.module.rel, f.qualname, norm(pred),
+                             f"recognizer for {kw} also fires for `{wrong[0]}` (and {len(wrong) - 1} more): an unrelated spec keyword is decoded as {kw}", line=pred.lineno,
+                             extra={"tokens": wrong[:10]}))
+        if missed:
+            res.fail(Finding("R-KWEXACT", f.module.rel, f.qualname, norm(pred), f"recognizer for {kw} misses `{missed[0]}`", line=pred.lineno))
+    for kw in ("CHG", "MASS", "RAD"):
+        if not found.get(kw):
+            raise AnalysisError(f"R-KWEXACT: no recognizer for {kw} found in the V3000 atom decoder (idiom changed)")
+    res.counts = {"recognizers": sum(found.values()), "spec_keywords": len(V3000_ATOM_KEYWORDS)}
+    res.trusted = ["CTfile 2020 V3000 atom-line keyword list (spec.py)"]
+    return res
+
+
+# --------------------------------------------------------------------------- R-COLS / R-CHGTABLE
+
+
+def _int_or_none(e, env):
+    try:
+        v = ceval(e, env)
+        return v if isinstance(v, int) else None
+    except Exception:
+        return None
+
+
+@rule("R-COLS")
+def r_cols(ctx) -> RuleResult:
+    res = RuleResult("R-COLS", "every column slice of the V2000 reader equals the CTfile field span of the value it feeds; index fields become 0-based labels by exactly -1")
+    fi, I, rec, bonds = analyse_reader(ctx, "V2000")
+    span = lambda t: f"{t[0]}:{t[1]}"  # noqa: E731
+    want_fields = {"x_coord": {span(V2000_ATOM["x"])}, "y_coord": {span(V2000_ATOM["y"])}, "z_coord": {span(V2000_ATOM["z"])},
+                   "element_symbol": {span(V2000_ATOM["symbol"])}}
+    for k, want in want_fields.items():
+        got = {c[1:-1] for c in _labels(taint(rec.fields.get(k)), "@col")}
+        ok = got == want
+        res.inst(fi.fq, f"atom line: `{k}` read from columns {sorted(got)}", "ok" if ok else "fail", detail=f"spec {sorted(want)}")
+        if not ok:
+            res.fail(Finding("R-COLS", fi.module.rel, "_parse_atom_line", f"{k} <- line[{sorted(got)}]", f"`{k}` is read from columns {sorted(got)}, the format has it at {sorted(want)}"))
+    # charge code column: atom-line stores of chg / rad
+    for ev in _uniq_events(I.events, "store"):
+        if ev.key in ("chg", "rad") and not _labels(ev.flags, "@sw:"):
+            got = {c[1:-1] for c in _labels(ev.flags, "@col")}
+            ok = got == {span(V2000_ATOM["ccc"])}
+            res.inst(ev.fi.fq, f"atom line: charge code read from columns {sorted(got)}", "ok" if ok else "fail")
+            if not ok:
+                res.fail(Finding("R-COLS", ev.fi.module.rel, ev.fi.qualname, f"{ev.key} <- {short(ev.node)}", f"charge code is read from columns {sorted(got)}, the format has it at {span(V2000_ATOM['ccc'])}", line=getattr(ev.node, "lineno", None)))
+    # bond line
+    brec = bonds.elem if bonds.kind == "map" else None
+    if brec is None or brec.kind != "rec":
+        raise AnalysisError("R-COLS: cannot see V2000 bond records")
+    got = {c[1:-1] for c in _labels(taint(brec.fields.get("bond_type")), "@col")}
+    ok = got == {span(V2000_BOND["ttt"])}
+    res.inst(fi.fq, f"bond line: bond type read from columns {sorted(got)}", "ok" if ok else "fail")
+    if not ok:
+        res.fail(Finding("R-COLS", fi.module.rel, "_parse_bond_line", f"bond_type <- line[{sorted(got)}]", f"bond type is read from columns {sorted(got)}, the format has it at {span(V2000_BOND['ttt'])}"))
+    got = {c[1:-1] for c in _labels(bonds.keyt, "@col")}
+    ok = got == {span(V2000_BOND["111"]), span(V2000_BOND["222"])}
+    res.inst(fi.fq, f"bond line: endpoints read from columns {sorted(got)}", "ok" if ok else "fail")
+    if not ok:
+        res.fail(Finding("R-COLS", fi.module.rel, "_parse_bond_line", f"endpoints <- line[{sorted(got)}]", f"bond endpoints are read from columns {sorted(got)}, the format has them at 0:3 and 3:6"))
+    # ---- syntactic part: offsets (-1) on index fields, affine property entries, counts line
+    clo = [ctx.cg.funcs[q] for q in ctx.cg.closure([fi.fq])]
+    _check_v2000_counts(ctx, fi, res)
+    for f in clo:
+        _check_index_offsets(ctx, f, res)
+        _check_prop_entries(ctx, f, res)
+    return res
+
+
+def _slice_of(e: ast.expr) -> Optional[ast.Subscript]:
+    """the `x[a:b]` inside `_to_int(x[a:b])`, `int(x[a:b])`, `x[a:b].strip()` ..."""
+    for n in ast.walk(e):
+        if isinstance(n, ast.Subscript) and isinstance(n.slice, ast.Slice):
+            return n
+    return None
+
+
+def _check_v2000_counts(ctx, fi: FuncInfo, res: RuleResult):
+    """evaluate the block offsets with sentinel counts A=5 atoms, B=7 bonds, L=2 atom lists"""
+    fn = fi.node
+    A, B, L = 5, 7, 2
+    sent = {(0, 3): A, (3, 6): B, (6, 9): L}
+    lines_p = params_of(fn)[0]
+    bad_span = []
+
+    def hook(value, env):
+        sl = _slice_of(value)
+        if sl is not None and isinstance(sl.value, ast.Subscript) and norm(sl.value) == f"{lines_p}[3]":
+            lo, hi = _int_or_none(sl.slice.lower, env) if sl.slice.lower else 0, _int_or_none(sl.slice.upper, env)
+            if (lo, hi) in sent:
+                return sent[(lo, hi)]
+            bad_span.append((sl, lo, hi))
+            return 0
+        return NotImplemented
+    env = run_straightline(fn.body, {}, call_hook=hook)
+    for sl, lo, hi in bad_span:
+        res.inst(fi.fq, f"counts line field `{short(sl)}`", "fail")
+        res.fail(Finding("R-COLS", fi.module.rel, fi.qualname, norm(sl), f"counts-line slice {lo}:{hi} is not one of the fields aaa (0:3), bbb (3:6), lll (6:9)", line=sl.lineno))
+    # block slices: lines[X : X + N] passed to calls
+    blocks = []
+    for n in own_walk(fn):
+        if isinstance(n, ast.Call):
+            for a in n.args:
+                if isinstance(a, ast.Subscript) and isinstance(a.slice, ast.Slice) and isinstance(a.value, ast.Name) and a.value.id == lines_p:
+                    lo = _int_or_none(a.slice.lower, env) if a.slice.lower else 0
+                    hi = _int_or_none(a.slice.upper, env) if a.slice.upper else None
+                    blocks.append((n, a, lo, hi))
+    if len(blocks) < 3:
+        raise AnalysisError("R-COLS: V2000 entry no longer slices the line list into atom / bond / property blocks")
+    want = {"atom": (4, 4 + A), "bond": (4 + A, 4 + A + B)}
+    for n, a, lo, hi in blocks:
+        callee = norm(n.func)
+        if "atom" in callee:
+            role = "atom"
+        elif "bond" in callee:
+            role = "bond"
+        else:
+            role = "prop"
+        if role in want:
+            ok = (lo, hi) == want[role]
+            why = f"{role} block = lines[{lo}:{hi}] for counts (5 atoms, 7 bonds, 2 lists); format: lines[{want[role][0]}:{want[role][1]}]"
+        else:
+            ok = lo is not None and hi is None and 4 + A <= lo <= 4 + A + B + L
+            why = f"property scan starts at line {lo} for counts (5, 7, 2); must start within [{4 + A}, {4 + A + B + L}] and run to the end"
+        res.inst(fi.fq, short(a), "ok" if ok else "fail", detail=why)
+        if not ok:
+            res.fail(Finding("R-COLS", fi.module.rel, fi.qualname, norm(a), why, line=a.lineno))
+
+
+def _check_index_offsets(ctx, f: FuncInfo, res: RuleResult):
+    """`_to_int(line[a:b]) - 1` for atom-index fields (bond endpoints, property entries)"""
+    for n in own_walk(f.node):
+        if isinstance(n, ast.Assign) and len(n.targets) == 1 and isinstance(n.targets[0], ast.Name) and "index" in n.targets[0].id:
+            sl = _slice_of(n.value)
+            if sl is None:
+                continue
+            v = n.value
+            k = 0
+            if isinstance(v, ast.BinOp) and isinstance(v.op, (ast.Sub, ast.Add)) and isinstance(v.right, ast.Constant):
+                k = -v.right.value if isinstance(v.op, ast.Sub) else v.right.value
+            ok = k == -1
+            res.inst(f.fq, short(n), "ok" if ok else "fail", detail="file atom numbers are 1-based, atom records are keyed 0-based")
+            if not ok:
+                res.fail(Finding("R-COLS", f.module.rel, f.qualname, norm(n), f"atom index field is used with offset {k:+d}; atom records are keyed by position (0-based), the file counts from 1", line=n.lineno))
+
+
+def _check_prop_entries(ctx, f: FuncInfo, res: RuleResult):
+    """property line `M  XXXnn8 aaa vvv ...`: entry i has the atom number at 10+8i..13+8i and the value at 14+8i..17+8i"""
+    loops = [n for n in own_walk(f.node) if isinstance(n, ast.For) and isinstance(n.iter, ast.Call) and isinstance(n.iter.func, ast.Name) and n.iter.func.id == "range"]
+    for lp in loops:
+        slices = [s for s in ast.walk(lp) if isinstance(s, ast.Subscript) and isinstance(s.slice, ast.Slice)]
+        if not slices or not isinstance(lp.target, ast.Name):
+            continue
+        i = lp.target.id
+        pre = [st for st in f.node.body if st is not lp and getattr(st, "lineno", 0) < lp.lineno]
+        spans = {}
+        for iv in range(8):
+            env = run_straightline(pre, {})
+            env[i] = iv
+            env = run_straightline(lp.body, env)
+            for s in slices:
+                lo = _int_or_none(s.slice.lower, env) if s.slice.lower else 0
+                hi = _int_or_none(s.slice.upper, env) if s.slice.upper else None
+                spans.setdefault(norm(s), (s, []))[1].append((lo, hi))
+        atom_want = [(V2000_PROP["entry_offset"] + V2000_PROP["entry_len"] * k + V2000_PROP["atom"][0],
+                      V2000_PROP["entry_offset"] + V2000_PROP["entry_len"] * k + V2000_PROP["atom"][1]) for k in range(8)]
+        val_want = [(V2000_PROP["entry_offset"] + V2000_PROP["entry_len"] * k + V2000_PROP["value"][0],
+                     V2000_PROP["entry_offset"] + V2000_PROP["entry_len"] * k + V2000_PROP["value"][1]) for k in range(8)]
+        for text, (s, got) in spans.items():
+            ok = got in (atom_want, val_want)
+            res.inst(f.fq, f"property entry slice `{text}`", "ok" if ok else "fail", detail=f"entries 1..8 at {got[:3]}...")
+            if not ok:
+                res.fail(Finding("R-COLS", f.module.rel, f.qualname, text,
+                                 f"entry i of a property line is read at {got[:3]}…; the format has the atom number at {atom_want[:3]}… and the value at {val_want[:3]}…", line=s.lineno))
+        # entry count field nn8
+        for st in pre:
+            if isinstance(st, ast.Assign):
+                sl = _slice_of(st.value)
+                if sl is not None:
+                    lo = _int_or_none(sl.slice.lower, {}) if sl.slice.lower else 0
+                    hi = _int_or_none(sl.slice.upper, {})
+                    ok = (lo, hi) == V2000_PROP["nn8"]
+                    res.inst(f.fq, f"entry count `{short(st)}`", "ok" if ok else "fail")
+                    if not ok:
+                        res.fail(Finding("R-COLS", f.module.rel, f.qualname, norm(st), f"entry count is read at {lo}:{hi}, the format has it at 6:9", line=st.lineno))
+
+
+@rule("R-CHGTABLE")
+def r_chgtable(ctx) -> RuleResult:
+    res = RuleResult("R-CHGTABLE", "V2000 charge-code table = {1:+3, 2:+2, 3:+1, 4:doublet radical, 5:-1, 6:-2, 7:-3}; code 0 / unknown codes give no attribute")
+    t = ctx.repo.try_const("tucan.element_attributes", "MOLFILE_V2000_CHARGES", None)
+    if not isinstance(t, dict):
+        raise AnalysisError("MOLFILE_V2000_CHARGES is no longer a constant table")
+    ok = t == V2000_CHARGE_CODES
+    res.inst("tucan.element_attributes", f"MOLFILE_V2000_CHARGES ({len(t)} codes)", "ok" if ok else "fail")
+    if not ok:
+        diff = sorted(k for k in set(t) | set(V2000_CHARGE_CODES) if t.get(k) != V2000_CHARGE_CODES.get(k))
+        m = ctx.repo.module("tucan.element_attributes")
+        res.fail(Finding("R-CHGTABLE", m.rel, "MOLFILE_V2000_CHARGES", f"codes {diff}: {[t.get(k) for k in diff]}",
+                         f"charge codes {diff} decode to {[t.get(k) for k in diff]}, the format says {[V2000_CHARGE_CODES.get(k) for k in diff]}",
+                         line=m.assign_nodes["MOLFILE_V2000_CHARGES"].lineno))
+    # the lookup falls back to 'no attribute'
+    v2 = reader_entries(ctx)["V2000"]
+    n = 0
+    for q in ctx.cg.closure([v2.fq]):
+        f = ctx.cg.funcs[q]
+        for x in own_walk(f.node):
+            if isinstance(x, ast.Subscript) and isinstance(x.value, ast.Name) and x.value.id == "MOLFILE_V2000_CHARGES" and isinstance(x.ctx, ast.Load):
+                n += 1
+                res.inst(f.fq, short(x), "fail")
+                res.fail(Finding("R-CHGTABLE", f.module.rel, f.qualname, norm(x), "charge table is subscripted directly: code 0 (uncharged) raises KeyError", line=x.lineno))
+            if isinstance(x, ast.Call) and isinstance(x.func, ast.Attribute) and x.func.attr == "get" and isinstance(x.func.value, ast.Name) and x.func.value.id == "MOLFILE_V2000_CHARGES":
+                n += 1
+                d = x.args[1] if len(x.args) > 1 else None
+                ok = isinstance(d, ast.Dict) and not d.keys
+                res.inst(f.fq, short(x), "ok" if ok else "fail")
+                if not ok:
+                    res.fail(Finding("R-CHGTABLE", f.module.rel, f.qualname, norm(x), "unknown / zero charge code does not fall back to 'no attribute' ({})", line=x.lineno))
+    if n == 0:
+        raise AnalysisError("R-CHGTABLE: the V2000 reader no longer consults the charge table")
+    return res
+
+
+# --------------------------------------------------------------------------- R-SIBKEYS
+
+
+@rule("R-SIBKEYS")
+def r_sibkeys(ctx) -> RuleResult:
+    res = RuleResult("R-SIBKEYS", "V2000 and V3000 decoders are siblings: same atom and bond key sets, both map D/T through the shared helper before the element-table lookup, dispatch is total (V3000 / V2000 / raise)")
+    a2 = analyse_reader(ctx, "V2000")
+    a3 = analyse_reader(ctx, "V3000")
+    k2, k3 = set(a2[2].fields), set(a3[2].fields)
+    ok = k2 == k3
+    res.inst("V2000 vs V3000", f"atom record keys {sorted(k2)}", "ok" if ok else "fail")
+    if not ok:
+        res.fail(Finding("R-SIBKEYS", a2[0].module.rel, a2[0].qualname, f"keys {sorted(k2 ^ k3)}", f"atom records of the two readers differ in the keys {sorted(k2 ^ k3)}"))
+    want = {"element_symbol", "atomic_number", "partition", "x_coord", "y_coord", "z_coord", "chg", "mass", "rad"}
+    for ver, ks, a in (("V2000", k2, a2), ("V3000", k3, a3)):
+        ok = ks == want
+        res.inst(a[0].fq, f"{ver} atom record keys = the graph's attribute vocabulary", "ok" if ok else "fail")
+        if not ok:
+            res.fail(Finding("R-SIBKEYS", a[0].module.rel, a[0].qualname, f"keys {sorted(ks ^ want)}", f"{ver} atom records: keys {sorted(ks ^ want)} missing or unexpected"))
+    b2 = a2[3].elem if a2[3].kind == "map" else None
+    b3 = a3[3].elem if a3[3].kind == "map" else None
+    kb2 = set(b2.fields) if b2 is not None and b2.kind == "rec" else set()
+    kb3 = set(b3.fields) if b3 is not None and b3.kind == "rec" else set()
+    ok = kb2 == kb3 == {"bond_type"}
+    res.inst("V2000 vs V3000", f"bond record keys {sorted(kb2)} / {sorted(kb3)}", "ok" if ok else "fail")
+    if not ok:
+        res.fail(Finding("R-SIBKEYS", a3[0].module.rel, a3[0].qualname, f"bond keys {sorted(kb2)} vs {sorted(kb3)}", "bond records of the two readers differ"))
+    # D/T helper before the element table
+    for ver, a in (("V2000", a2), ("V3000", a3)):
+        clo = [ctx.cg.funcs[q] for q in ctx.cg.closure([a[0].fq])]
+        lookups = []
+        for f in clo:
+            for x in own_walk(f.node):
+                if isinstance(x, ast.Subscript) and isinstance(x.value, ast.Name) and x.value.id == "ELEMENT_ATTRS":
+                    lookups.append((f, x))
+        if not lookups:
+            raise AnalysisError(f"R-SIBKEYS: {ver} reader has no element-table lookup")
+        for f, x in lookups:
+            key = x.slice
+            ok = False
+            if isinstance(key, ast.Name):
+                for d in assigned_names(f.node).get(key.id, []):
+                    if isinstance(d, ast.Assign) and isinstance(d.value, ast.Call):
+                        cs = ctx.cg.resolve_call(f, d.value, ctx.cg.local_types(f), set(params_of(f.node)))
+                        if cs.kind == "tucan" and cs.target.name == "detect_hydrogen_isotopes":
+                            ok = True
+            res.inst(f.fq, f"{ver}: {short(x)} keyed by the D/T-normalised symbol", "ok" if ok else "fail")
+            if not ok:
+                res.fail(Finding("R-SIBKEYS", f.module.rel, f.qualname, norm(x), f"{ver}: element table is consulted with a symbol that did not pass through detect_hydrogen_isotopes (D / T raise KeyError or are misread)", line=x.lineno))
+    # dispatch totality
+    disp = entry(ctx, "read_text")
+    cfg = cfg_of(disp.node)
+    # the final else must raise: find the If chain on the version
+    chain = [n for n in own_walk(disp.node) if isinstance(n, ast.If)]
+    last = None
+    for c in chain:
+        last = c
+        while last.orelse and len(last.orelse) == 1 and isinstance(last.orelse[0], ast.If):
+            last = last.orelse[0]
+        break
+    ok = last is not None and bool(last.orelse) and any(isinstance(s, ast.Raise) for s in last.orelse)
+    res.inst(disp.fq, "unsupported version raises the reader's exception", "ok" if ok else "fail")
+    if not ok:
+        res.fail(Finding("R-SIBKEYS", disp.module.rel, disp.qualname, "version dispatch", "a version other than V2000 / V3000 does not raise", line=disp.node.lineno))
+    return res
+
+
+# --------------------------------------------------------------------------- R-SUPERSEDE
+
+
+@rule("R-SUPERSEDE")
+def r_supersede(ctx) -> RuleResult:
+    res = RuleResult("R-SUPERSEDE", "V2000 property block: CHG or RAD lines clear both chg and rad of every atom before the merge; the scan ends at `M  END` or raises")
+    v2 = reader_entries(ctx)["V2000"]
+    clo = [ctx.cg.funcs[q] for q in ctx.cg.closure([v2.fq])]
+    # the property-block function: the one with branches on startswith("M  CHG") / ("M  RAD")
+    pf = None
+    for f in clo:
+        txt = {x.args[0].value for x in own_walk(f.node) if isinstance(x, ast.Call) and isinstance(x.func, ast.Attribute) and x.func.attr == "startswith"
+               and x.args and isinstance(x.args[0], ast.Constant)}
+        if {"M  CHG", "M  RAD"} <= txt:
+            pf = f
+    if pf is None:
+        raise AnalysisError("R-SUPERSEDE: no function branches on `M  CHG` and `M  RAD` lines (anchor vanished)")
+    fn = pf.node
+    cfg = cfg_of(fn)
+    chg_k = ctx.repo.const("tucan.graph_attributes", "CHG")
+    rad_k = ctx.repo.const("tucan.graph_attributes", "RAD")
+
+    def kills_of(call: ast.Call) -> set:
+        """keys removed from all atoms by this call (direct pop or clear helper with constant key)"""
+        cs = ctx.cg.resolve_call(pf, call, ctx.cg.local_types(pf), set(params_of(fn)))
+        out = set()
+        if cs.kind == "tucan":
+            tf = cs.target
+            tp = params_of(tf.node)
+            for x in own_walk(tf.node):
+                if isinstance(x, ast.Call) and isinstance(x.func, ast.Attribute) and x.func.attr == "pop" and x.args:
+                    k = x.args[0]
+                    if isinstance(k, ast.Name) and k.id in tp:
+                        idx = tp.index(k.id)
+                        if idx < len(call.args):
+                            v = try_const(ctx, pf, call.args[idx])
+                            if v is not None:
+                                out.add(v)
+                    else:
+                        v = try_const(ctx, tf, k)
+                        if v is not None:
+                            out.add(v)
+        return out
+    kill_nodes = {}
+    for x in own_walk(fn):
+        if isinstance(x, ast.Call):
+            ks = kills_of(x)
+            if ks:
+                kill_nodes[id(x)] = (x, ks)
+    # merge call: callee that updates atom records from the collected entries (|= / update on items of param 0)
+    merge_calls = []
+    for x in own_walk(fn):
+        if isinstance(x, ast.Call):
+            cs = ctx.cg.resolve_call(pf, x, ctx.cg.local_types(pf), set(params_of(fn)))
+            if cs.kind == "tucan" and any(isinstance(y, ast.AugAssign) and isinstance(y.op, ast.BitOr) or
+                                          (isinstance(y, ast.Call) and isinstance(y.func, ast.Attribute) and y.func.attr == "update")
+                                          for y in own_walk(cs.target.node)) and "merge" in cs.target.name and "tuple" not in cs.target.name:
+                merge_calls.append(x)
+    if not merge_calls:
+        # merge written inline
+        for y in own_walk(fn):
+            if isinstance(y, ast.AugAssign) and isinstance(y.op, ast.BitOr):
+                merge_calls.append(y)
+    if not merge_calls:
+        raise AnalysisError("R-SUPERSEDE: cannot find where property entries are merged into the atom records")
+    # flags set in the CHG / RAD branches
+    flags = {}
+    for n in own_walk(fn):
+        if isinstance(n, ast.If) and isinstance(n.test, ast.Call) and isinstance(n.test.func, ast.Attribute) and n.test.func.attr == "startswith" \
+                and n.test.args and isinstance(n.test.args[0], ast.Constant):
+            which = n.test.args[0].value
+            for st in n.body:
+                if isinstance(st, ast.Assign) and isinstance(st.targets[0], ast.Name) and isinstance(st.value, ast.Constant) and st.value.value is True:
+                    flags.setdefault(which, set()).add(st.targets[0].id)
+    both = flags.get("M  CHG", set()) & flags.get("M  RAD", set())
+    # kills guarded by that flag
+    killed_under = set()
+    for n in own_walk(fn):
+        if isinstance(n, ast.If) and isinstance(n.test, ast.Name) and n.test.id in both:
+            for x in ast.walk(ast.Module(n.body, [])):
+                if isinstance(x, ast.Call) and id(x) in kill_nodes:
+                    killed_under |= kill_nodes[id(x)][1]
+    ok = bool(both) and {chg_k, rad_k} <= killed_under
+    res.inst(pf.fq, f"CHG and RAD lines set a common flag {sorted(both)}; under it {sorted(killed_under)} are cleared", "ok" if ok else "fail")
+    if not ok:
+        miss = sorted({chg_k, rad_k} - killed_under)
+        res.fail(Finding("R-SUPERSEDE", pf.module.rel, pf.qualname, f"supersession of {miss}",
+                         f"a CHG or RAD property line does not clear {miss} of all atoms: atom-block charge codes survive although the format says they are superseded",
+                         line=fn.lineno))
+    # clearing precedes the merge on every path
+    for mc in merge_calls:
+        mn = cfg.stmt_node_containing(mc) if not isinstance(mc, ast.stmt) else cfg.node_of(mc)
+        for _, (kc, ks) in kill_nodes.items():
+            kn = cfg.stmt_node_containing(kc)
+            bad = mn is not None and kn is not None and cfg.reachable(mn, kn)
+            res.inst(pf.fq, f"`{short(kc, 50)}` is never executed after the merge", "fail" if bad else "ok")
+            if bad:
+                res.fail(Finding("R-SUPERSEDE", pf.module.rel, pf.qualname, norm(kc), "attributes are cleared after the property entries were merged: the entries themselves are lost", line=kc.lineno))
+    # the scan ends at M  END or raises
+    loops = [n for n in own_walk(fn) if isinstance(n, ast.For)]
+    scan = None
+    for lp in loops:
+        if any(isinstance(x, ast.Constant) and x.value == "M  END" for x in ast.walk(lp)):
+            scan = lp
+    if scan is None:
+        res.inst(pf.fq, "scan loop with `M  END` test", "fail")
+        res.fail(Finding("R-SUPERSEDE", pf.module.rel, pf.qualname, "property scan", "the property scan no longer stops at `M  END`", line=fn.lineno))
+    else:
+        ln = cfg.node_of(scan)
+        done_targets = [t for _, t, d in cfg.g.out_edges(ln, data=True) if d.get("label") in ("done", "both")]
+        ok = bool(done_targets) and all(not cfg.reachable(t, cfg.EXIT) and t != cfg.EXIT for t in done_targets)
+        res.inst(pf.fq, "running off the end of the file without `M  END` raises", "ok" if ok else "fail")
+        if not ok:
+            res.fail(Finding("R-SUPERSEDE", pf.module.rel, pf.qualname, short(scan, 60), "a file without `M  END` is accepted silently", line=scan.lineno))
+    return res
+
+
+# --------------------------------------------------------------------------- R-ORDERING
+
+
+@rule("R-ORDERING")
+def r_ordering(ctx) -> RuleResult:
+    res = RuleResult("R-ORDERING", "V3000: continuation splicing precedes tokenising and every raw line goes through it; bond indices are validated before return; TUCAN parser: every index is validated before it is used")
+    v3 = reader_entries(ctx)["V3000"]
+    fn = v3.node
+    cfg = cfg_of(fn)
+    lines_p = params_of(fn)[0]
+    clo = [ctx.cg.funcs[q] for q in ctx.cg.closure([v3.fq])]
+    # (a) splice before split
+    splicers = [f for f in clo if any(isinstance(x, ast.Call) and isinstance(x.func, ast.Attribute) and x.func.attr == "endswith" and x.args
+                                      and isinstance(x.args[0], ast.Constant) and x.args[0].value == "-" for x in own_walk(f.node))]
+    if not splicers:
+        res.inst(v3.fq, "continuation-line splicing exists", "fail")
+        res.fail(Finding("R-ORDERING", v3.module.rel, v3.qualname, "continuation lines", "no function joins lines that end in '-' (continuation lines are not spliced)", line=fn.lineno))
+    else:
+        sp = splicers[0]
+        # the function(s) calling the splicer split lines into tokens on the splicer's result only
+        callers = [f for f in clo if any(cs.kind == "tucan" and cs.target.fq == sp.fq for cs in sites(ctx, f))]
+        if not callers:
+            raise AnalysisError("R-ORDERING: the continuation-line splicer is never called")
+        # the entry hands its raw lines to such a function and to nothing else (checked below)
+        for f in callers + ([v3] if v3 not in callers else []):
+            for x in own_walk(f.node):
+                if isinstance(x, (ast.ListComp, ast.GeneratorExp)) and any(isinstance(y, ast.Call) and isinstance(y.func, ast.Attribute) and y.func.attr == "split" for y in ast.walk(x.elt)):
+                    it = x.generators[0].iter
+                    src = single_def(f.node, it.id) if isinstance(it, ast.Name) else it
+                    # parameter rebinding:  lines = splice(lines)
+                    if isinstance(it, ast.Name) and src is None:
+                        defs = assigned_names(f.node).get(it.id, [])
+                        src = defs[0].value if len(defs) == 1 and isinstance(defs[0], ast.Assign) else None
+                    ok = isinstance(src, ast.Call) and ctx.cg.resolve_call(f, src, ctx.cg.local_types(f), set()).kind == "tucan" and \
+                        ctx.cg.resolve_call(f, src, ctx.cg.local_types(f), set()).target.fq == sp.fq
+                    if ok and isinstance(it, ast.Name) and it.id in params_of(f.node):
+                        # the rebinding must dominate the split
+                        c2 = cfg_of(f.node)
+                        d = assigned_names(f.node)[it.id][0]
+                        ok = c2.dominates(c2.node_of(d), c2.stmt_node_containing(x))
+                    res.inst(f.fq, f"tokenising `{short(x, 60)}` works on spliced lines", "ok" if ok else "fail")
+                    if not ok:
+                        res.fail(Finding("R-ORDERING", f.module.rel, f.qualname, norm(x), "lines are split into tokens before continuation lines were joined", line=x.lineno))
+        # raw `lines` of the entry goes only to the tokenizer
+        uses = [x for x in own_walk(fn) if isinstance(x, ast.Name) and x.id == lines_p and isinstance(x.ctx, ast.Load)]
+        okuse = len(uses) == 1
+        res.inst(v3.fq, f"raw line list is used once ({len(uses)} uses)", "ok" if okuse else "fail")
+        if not okuse:
+            res.fail(Finding("R-ORDERING", v3.module.rel, v3.qualname, f"{len(uses)} uses of {lines_p}", "raw (unspliced) lines are read besides the tokenizer", line=fn.lineno))
+    # (b) bond validation post-dominates bond decoding
+    val_calls = []
+    bond_calls = []
+    for x in own_walk(fn):
+        if isinstance(x, ast.Call):
+            cs = ctx.cg.resolve_call(v3, x, ctx.cg.local_types(v3), set(params_of(fn)))
+            if cs.kind == "tucan":
+                sub = ctx.cg.closure([cs.target.fq])
+                raises_on_missing = any(
+                    isinstance(y, ast.If) and isinstance(y.test, ast.Compare) and isinstance(y.test.ops[0], ast.NotIn) and any(isinstance(z, ast.Raise) for z in y.body)
+                    for q in sub for y in own_walk(ctx.cg.funcs[q].node))
+                if "valid" in cs.target.name and "bond" in cs.target.name and raises_on_missing:
+                    val_calls.append(x)
+                elif "bond" in cs.target.name and "valid" not in cs.target.name:
+                    bond_calls.append(x)
+    if not bond_calls:
+        raise AnalysisError("R-ORDERING: V3000 entry no longer calls a bond-block decoder")
+    ok = False
+    if val_calls:
+        vn = cfg.stmt_node_containing(val_calls[0])
+        bn = cfg.stmt_node_containing(bond_calls[0])
+        ok = vn is not None and bn is not None and cfg.postdominates(vn, bn) and cfg.dominates(bn, vn)
+    res.inst(v3.fq, "bond indices validated against the atom table after decoding, before return", "ok" if ok else "fail")
+    if not ok:
+        res.fail(Finding("R-ORDERING", v3.module.rel, v3.qualname, short(bond_calls[0]), "V3000 bonds can reach the caller without their endpoints having been checked against the atom table (a dangling endpoint silently creates an atom)", line=bond_calls[0].lineno))
+    # (c) TUCAN parser
+    _check_parser_validation(ctx, res)
+    return res
+
+
+def _check_parser_validation(ctx, res: RuleResult):
+    repo = ctx.repo
+    par = repo.module("tucan.parser.parser")
+    lis = None
+    for ci in par.classes.values():
+        if any(b.endswith("tucanListener") for b in repo.base_names(ci)):
+            lis = ci
+    if lis is None:
+        raise AnalysisError("listener implementation vanished")
+    tg = repo.mro_method(lis, "to_graph")
+    if tg is None:
+        raise AnalysisError("listener.to_graph vanished")
+    fn = tg.node
+    cfg = cfg_of(fn)
+    # validators: methods that raise when index >= len(atoms)
+    validators = {}
+    for name, m in lis.methods.items():
+        ps = params_of(m.node)
+        if len(ps) != 2:
+            continue
+        idx = ps[1]
+        for y in own_walk(m.node):
+            if isinstance(y, ast.If) and any(isinstance(z, ast.Raise) for z in y.body):
+                try:
+                    stubs = {}
+                    for z in ast.walk(y.test):
+                        if isinstance(z, ast.Call) and isinstance(z.func, ast.Name) and z.func.id == "len":
+                            stubs[norm(z)] = 3
+                    vals = {i: bool(ceval(y.test, {idx: i}, stubs)) for i in (0, 2, 3, 4)}
+                except Exception:
+                    continue
+                good = (not vals[0]) and (not vals[2]) and vals[3] and vals[4]
+                validators[name] = (m, good, y)
+    if not validators:
+        res.inst(tg.fq, "an index validator exists", "fail")
+        res.fail(Finding("R-ORDERING", tg.module.rel, tg.qualname, "index validation", "the parser has no check that an index refers to an existing atom", line=fn.lineno))
+        return
+    for name, (m, good, y) in validators.items():
+        res.inst(m.fq, f"raises exactly when index >= number of atoms: `{short(y.test)}`", "ok" if good else "fail")
+        if not good:
+            res.fail(Finding("R-ORDERING", m.module.rel, m.qualname, norm(y.test), "index validator does not reject exactly the indices >= number of atoms", line=y.lineno))
+
+    def is_validation(call: ast.Call, var: str) -> bool:
+        return isinstance(call.func, ast.Attribute) and call.func.attr in validators and call.args and isinstance(call.args[0], ast.Name) and call.args[0].id == var
+    # subscripts by a loop variable over self._node_attributes
+    for lp in [n for n in own_walk(fn) if isinstance(n, ast.For)]:
+        tvars = [x.id for x in ast.walk(lp.target) if isinstance(x, ast.Name)]
+        src = norm(lp.iter)
+        if "_node_attributes" in src:
+            idx = tvars[0]
+            subs = [x for x in ast.walk(lp) if isinstance(x, ast.Subscript) and isinstance(x.slice, ast.Name) and x.slice.id == idx]
+            for s in subs:
+                sn = cfg.stmt_node_containing(s)
+                vs = [cfg.stmt_node_containing(c) for c in ast.walk(lp) if isinstance(c, ast.Call) and is_validation(c, idx)]
+                ok = any(v is not None and v != sn and cfg.dominates(v, sn) for v in vs)
+                res.inst(tg.fq, f"`{short(s)}` dominated by validation of {idx}", "ok" if ok else "fail")
+                if not ok:
+                    res.fail(Finding("R-ORDERING", tg.module.rel, tg.qualname, norm(s), "attribute index is used as a subscript without a dominating existence check: IndexError / KeyError instead of the parser's exception", line=s.lineno))
+    # bonds: both endpoints validated in a loop over self._bonds that dominates the graph construction
+    build = [x for x in own_walk(fn) if isinstance(x, ast.Call) and ctx.cg.resolve_call(tg, x, ctx.cg.local_types(tg), set(params_of(fn))).kind == "tucan"
+             and ctx.cg.resolve_call(tg, x, ctx.cg.local_types(tg), set(params_of(fn))).target.name == "graph_from_molecule"]
+    if not build:
+        raise AnalysisError("to_graph no longer calls graph_from_molecule")
+    bn = cfg.stmt_node_containing(build[0])
+    ok = False
+    for lp in [n for n in own_walk(fn) if isinstance(n, ast.For)]:
+        if "_bonds" in norm(lp.iter):
+            tvars = [x.id for x in ast.walk(lp.target) if isinstance(x, ast.Name)]
+            validated = {v for v in tvars if any(isinstance(c, ast.Call) and is_validation(c, v) and c in [s.value for s in lp.body if isinstance(s, ast.Expr)] for c in ast.walk(lp))}
+            ln = cfg.node_of(lp)
+            if len(tvars) == 2 and validated == set(tvars) and ln is not None and cfg.dominates(ln, bn):
+                ok = True
+    res.inst(tg.fq, "both endpoints of every bond validated before the graph is built", "ok" if ok else "fail")
+    if not ok:
+        res.fail(Finding("R-ORDERING", tg.module.rel, tg.qualname, short(build[0]), "a bond endpoint can reach graph construction unvalidated: a dangling index silently adds an atom", line=build[0].lineno))
